@@ -7,6 +7,7 @@ import Rl2tp.Driver.Text
 import Rl2tp.Model.Bitmask
 import Rl2tp.Model.Cursor
 import Rl2tp.Model.WriterLog
+import Rl2tp.Model.InPlace
 import Rl2tp.Spec.Md5
 namespace Rl2tp.Driver
 open Rl2tp.Text
@@ -264,11 +265,11 @@ def run (f : List String) : Option String :=
     let a ← parseAvp a
     let ap ← unhex ap
     if ap.length ≠ 16 then none
-    some (match hide md5 a (← unhex s) (← b4? rv) (← unhex lp) ap with
+    some (match hideIP md5 a (← unhex s) (← b4? rv) (← unhex lp) ap with
       | .ok h => renderAvp h
       | .error _ => "panic")
   | ["reveal", a, s, rv] => do
-    some (revealText (reveal md5 (← parseAvp a) (← unhex s) (← b4? rv)))
+    some (revealText (revealIP md5 (← parseAvp a) (← unhex s) (← b4? rv)))
   | ["hr", a, s, rv, lp, ap] => do
     let a ← parseAvp a
     let s ← unhex s
@@ -276,17 +277,17 @@ def run (f : List String) : Option String :=
     let lp ← unhex lp
     let ap ← unhex ap
     if ap.length ≠ 16 then none
-    some (match hide md5 a s rv lp ap with
+    some (match hideIP md5 a s rv lp ap with
       | .error _ => "h=panic"
       | .ok h =>
-        let r := revealText (reveal md5 h s rv)
+        let r := revealText (revealIP md5 h s rv)
         let w :=
           if h.getLength ≤ 1017 then
             (match encodeAvp h with
               | .error _ => "enc-panic"
               | .ok d =>
                 (match avps d with
-                  | .ok [.ok h2] _ => revealText (reveal md5 h2 s rv)
+                  | .ok [.ok h2] _ => revealText (revealIP md5 h2 s rv)
                   | _ => "undecodable"))
           else "na"
         "h=" ++ renderAvp h ++ " r=" ++ r ++ " w=" ++ w)
